@@ -88,7 +88,7 @@ impl<'a> VisitMut for BodyRules<'a> {
         let mut repl: Option<Expr> = None;
         // O (configured): a named std-only expression is replaced by a call to an outlined helper whose body is that expression
         if let Some(fs) = self.unit.fns.get(&self.fnpath) {
-            if !fs.outline_exprs.is_empty() && matches!(e, Expr::MethodCall(_) | Expr::Call(_) | Expr::Binary(_)) {
+            if !fs.outline_exprs.is_empty() && matches!(e, Expr::MethodCall(_) | Expr::Call(_) | Expr::Binary(_) | Expr::Macro(_)) {
                 let key = norm(&e.to_token_stream().to_string());
                 for (a, b) in &fs.outline_exprs { if *a == key { repl = Some(syn::parse_str(b).expect("outline-expr replacement")); self.outline(&format!("expr:{}", a)); } }
             }
@@ -129,6 +129,9 @@ impl<'a> VisitMut for BodyRules<'a> {
             if repl.is_none() && name == "to_vec" && m.args.is_empty() { let a = &m.receiver; self.outline("__o_to_vec"); repl = Some(parse_quote!(__o_to_vec(#a))); }
             if name == "concat" && m.args.is_empty() { if let Expr::Array(arr) = &*m.receiver { if arr.elems.len() == 2 { let a = &arr.elems[0]; let b = &arr.elems[1];
                 self.outline("__o_concat2"); repl = Some(parse_quote!(__o_concat2(#a, #b))); } } }
+            // O: `A.try_for_each(..).and(B)` (Result::and: B is evaluated eagerly, the first Err wins)
+            if repl.is_none() && name == "and" && m.args.len() == 1 { if let Expr::MethodCall(r) = &*m.receiver { if r.method == "try_for_each" {
+                let a = &m.receiver; let b = m.args.first().unwrap(); self.outline("__o_result_and"); repl = Some(parse_quote!(__o_result_and(#a, #b))); } } }
             if name == "then_some" && m.args.len() == 1 { let c = &m.receiver; let a = m.args.first().unwrap(); self.outline("__o_then_some"); repl = Some(parse_quote!(__o_then_some(#c, #a))); }
             if name == "contains" && m.args.len() == 1 && self.unit.outline_contains.iter().any(|f| norm(&m.receiver.to_token_stream().to_string()) == *f) { let c = &m.receiver; let a = m.args.first().unwrap(); self.outline("__o_vec_contains"); repl = Some(parse_quote!(__o_vec_contains(&#c, #a))); }
         }
